@@ -7,7 +7,7 @@ import intro, edits, docs, treedump, session
 
 ID = 'C20'
 PROPERTY_FILE = 'Autobean/Properties/C20.lean'
-LEAN_TARGETS = ['Autobean.Properties.C20', 'Autobean.Obligations.Schema']
+LEAN_TARGETS = ['Autobean.Properties.C20', 'Autobean.Obligations.Schema', 'Autobean.Obligations.CachesEquality']
 RULE = ('generated ledgers and the parseable string literals of the repository tests, both attribution modes; pairs: the same '
         'text parsed twice (root and every sub-model), copy vs original, every single perturbation of one document (text of '
         'one store token; each present optional child removed; each absent optional child added; append/pop on each repeated '
